@@ -1390,6 +1390,28 @@ func main() {
 		}
 	}
 
+	// ---- GoParse.lean: projString.go (switch cases) and DeriveConstants
+	{
+		var g strings.Builder
+		g.WriteString("/- GENERATED by harness/cmd/c09/extract from proj/projString.go and proj/deriveConstants.go.\n   Do not edit: rewritten from the current source on every check run (tie T1). -/\n")
+		g.WriteString("import GeomV.C09.Gen.GoProj\nset_option linter.unusedVariables false\nnamespace GeomV.C09.Gen.Go\nopen GeomV.C09\n\n")
+		func() {
+			defer func() {
+				if r := recover(); r != nil {
+					if u, ok := r.(untranslatable); ok {
+						die("projString/DeriveConstants left the translatable subset: %s", u.msg)
+					}
+					panic(r)
+				}
+			}()
+			t.genProjString(&g)
+			t.genDeriveConstants(&g)
+		}()
+		g.WriteString("end GeomV.C09.Gen.Go\n")
+		writeIfChanged(filepath.Join(*out, "GoParse.lean"), g.String())
+		fmt.Printf("c09 extract: projString switch and DeriveConstants translated (GoParse.lean)\n")
+	}
+
 	// ---- Tables.lean
 	var tb strings.Builder
 	tb.WriteString("/- GENERATED by harness/cmd/c09/extract from proj/{EllipsoidDef,DatumDef,PrimeMeridian,units}.go and\n   proj/proj4js-2.3.12/lib/constants/{Ellipsoid,Datum,PrimeMeridian,units}.js.\n   Do not edit: rewritten from the current sources on every check run (tie T1). Rows sorted by key. -/\n")
